@@ -77,13 +77,14 @@ PROPS = {
     ),
     "C02": dict(
         title="Built records carry truthful Content-Length, digests and record ids",
-        lean_modules=["Gowarc.Props.C02"],
+        lean_modules=["Gowarc.Props.C02", "Gowarc.Props.C02e2e"],
+        audit_namespaces=["Gowarc.Props.C02"],
         n_quick=3000, n_thorough=40000,
-        required_theorems=["C02_added_digest", "C02_http_split", "C02_default_digest"],
+        required_theorems=["C02_added_digest", "C02_http_split", "C02_default_digest", "C02_validate_truthful", "C02_build_truthful", "checkDigest_post", "parseBlock_keepsCL"],
         model_assumptions=["record ids come from the configured id function; uniqueness of uuid.New is an assumption (randomness), only well-formedness is checked", "see level_note"],
         design_ref="DESIGN.md section 5, C02",
         level_text="Model of Build compared with the implementation on seeded builder inputs x 81 policy combinations x repair flags x algorithms x encodings; the oracle recomputes Content-Length and digests "
-                   "from the serialized bytes with crypto/* and re-runs every case with four other feeding manners and thresholds; theorems: the added digest is name:encode(H(alg, exactly the block / payload bytes)), "
+                   "from the serialized bytes with crypto/* and re-runs every case with four other feeding manners and thresholds; theorems: C02_build_truthful (every record Build returns without error, under spec warn/fail with the default repair options, has Content-Length = decimal length of its block and a truthful WARC-Block-Digest, for every header, content, type and oracle verdict), C02_validate_truthful (the same postcondition for ValidateDigest on any block), the added digest is name:encode(H(alg, exactly the block / payload bytes)), "
                    "head ++ payload = content, default algorithm/encoding, Set/Get law",
         level_note=COMMON_NOTE,
     ),
